@@ -11,6 +11,7 @@ From Yaqs Require LinAlg.Unravel.
 From Yaqs Require Import Base.Num Model.NoiseAttrib Proofs.NoiseAttribP Model.JumpPipeline Proofs.JumpPipelineP.
 From Yaqs Require Import Proofs.DissipationP.
 From Yaqs Require LinAlg.Strang.
+From Yaqs Require Import Model.NoiseNorm Proofs.NoiseNormP.
 
 Theorem C01_weight_belongs_to_its_process : forall (N : Num) L dt ns (l : list (proc N)) k p,
   nth_error l k = Some p -> nth_error (weights N L dt ns l) k = Some (weight N L dt ns p).
@@ -89,3 +90,11 @@ Theorem C01_symmetric_splitting_is_second_order :
   forall C B : R, Strang.teq (Strang.tmul (Strang.tmul (Strang.texp C) (Strang.texp B)) (Strang.texp C)) (Strang.texp (add (add C C) B)).
 Proof. exact @Strang.strang. Qed.
 Print Assumptions C01_symmetric_splitting_is_second_order.
+
+(* how a listed process is filed by the noise model: independent of the order of its two sites, stored ascending, neighbours with one
+   matrix and distant pairs with two factors *)
+Theorem C01_process_filing : forall a b, file_sites (a :: b :: nil) = file_sites (b :: a :: nil) /\
+  (match stored_sites (file_sites (a :: b :: nil)) with x :: y :: nil => x <= y | _ => True end) /\
+  ((exists lo, file_sites (a :: b :: nil) = FAdj lo) <-> (a = S b \/ b = S a)).
+Proof. intros a b. split; [apply filing_order_irrelevant|]. split; [apply (stored_sites_ascending (a :: b :: nil))|apply adjacent_iff]. Qed.
+Print Assumptions C01_process_filing.
